@@ -16,8 +16,9 @@ RULE = ("fragment streams of real messages (2..4 fragments exhaustively, 5..7 ra
         "exactly one complete sent message (bytes, type, origin) and no message may be delivered "
         "twice. Non-trivial: >=1 enqueue accepted; distinct = distinct (fragment counts, senders, "
         "id relation, delivery pattern, dequeue points).")
-RULE += (" Later rounds added: tail-replay histories for types that coincide with fragment counters, queue-pressure histories, direct and multicast messages sharing origin and frame id (destination is part of a message's identity), two messages in a row under one kept header object (same origin, id, destination, type) with the first abandoned part-way and the queue filled in between.")
-REQUIRED = {"dequeued_is_sent_message": 2000, "at_most_once": 2000, "histories": 5000, "histories_id_reuse": 500}
+RULE += (" Later rounds added: tail-replay histories for types that coincide with fragment counters, queue-pressure histories, direct and multicast messages sharing origin and frame id (destination is part of a message's identity), two messages in a row under one kept header object (same origin, id, destination, type) with the first abandoned part-way and the queue filled in between; fragment streams produced by the library's own sender (real send(), frames taken from the air log) and messages that are exact multiples of 24 bytes long.")
+REQUIRED = {"dequeued_is_sent_message": 2000, "at_most_once": 2000, "histories": 5000, "histories_id_reuse": 500,
+            "library_sender_streams": 300}
 BUDGET = {"quick": 480, "thorough": 900}
 
 ME = 0o2
@@ -26,14 +27,54 @@ ME = 0o2
 MC = 0o100  # the multicast address: a node also reassembles multicasts of its level
 
 
-def mk_message(sender, fid, nfrag, typ, tag, to=ME):
+_LIB_CACHE = {}
+
+
+def lib_frames(sender, to, fid, typ, body):
+    """the frames the LIBRARY's own sender puts on air for this message: a real RF24Network node at
+    address `sender` calls send(); a promiscuous stub acknowledges every packet; the first
+    transmission of each packet is recorded from the air log.  (The receiver under test must hand
+    out what the application passed to send(), so a sender that numbers or slices its fragments
+    wrongly is seen here too - the reference fragmenter never runs that code.)"""
+    key = (sender, to, fid, typ, body)
+    if key in _LIB_CACHE:
+        return _LIB_CACHE[key]
+    from checks.netcommon import Phantom
+    from vsim import world as W
+    m = repo()
+    rig = Rig(seed=5)
+    try:
+        rig.air.promisc = Phantom()
+        obj = rig.driver(rig.radio("s"), cls=m["rf24_network"].RF24Network, node_address=sender)
+        air0 = len(rig.air.log)
+        rig.node.deadline = rig.node.t + 3000 * W.MS
+        hdr = m["structs"].RF24NetworkHeader(to, typ)
+        hdr.frame_id = fid
+        obj.send(hdr, body)
+        rig.node.deadline = None
+        frames = [bytes(p.payload) for p in rig.air.log[air0:] if p.kind == "data" and p.attempt == 0
+                  and not (len(p.payload) >= 7 and p.payload[6] == net_ref.NETWORK_ACK)]
+    finally:
+        rig.close()
+    if len(_LIB_CACHE) > 4000:
+        _LIB_CACHE.clear()
+    _LIB_CACHE[key] = frames
+    return frames
+
+
+def mk_message(sender, fid, nfrag, typ, tag, to=ME, exact=False, src="ref"):
     if nfrag == 0:  # an empty message: one header-only frame
         frames = net_ref.fragment(sender, to, fid, typ, b"")
         return {"from": sender, "id": fid, "type": typ, "msg": b"", "frames": frames, "to": to}
-    n = 24 * (nfrag - 1) + 1 + (tag * 7) % 23
+    n = 24 * nfrag if exact else 24 * (nfrag - 1) + 1 + (tag * 7) % 23
     body = bytes(((tag * 31 + i * 5 + sender + (to != ME)) & 0xFF) for i in range(n))
-    frames = net_ref.fragment(sender, to, fid, typ, body)
-    assert len(frames) == nfrag
+    if src == "lib" and to == ME:
+        frames = lib_frames(sender, to, fid, typ, body)
+        # a sender that emits another number of frames: the delivery pattern addresses what exists
+        frames = (frames + [None] * nfrag)[:max(nfrag, len(frames))]
+    else:
+        frames = net_ref.fragment(sender, to, fid, typ, body)
+        assert len(frames) == nfrag
     return {"from": sender, "id": fid, "type": typ, "msg": body, "frames": frames, "to": to}
 
 
@@ -173,8 +214,30 @@ def gen_cases(ctx):
                 yield {"msgs": [[0o3, 10, nfrag, typ, MC], [0o4, 11, 2, typ, MC]],
                        "order": [[0, i] for i in range(nfrag)] + [[1, 0], [1, 1]], "deq": deq, "path": "radio",
                        "relay": True}
+    # the library's own sender produces the fragments (real send() on a node, every packet
+    # acknowledged by a stub, first transmissions taken from the air log), message lengths that are
+    # exact multiples of 24 as well as ragged ones; complete / one lost / one repeated / small
+    # exhaustive patterns, read at the end or after every fragment
+    for nfrag in (2, 3, 4, 5, 6):
+        for exact in (False, True):
+            if nfrag <= 3:
+                pats = list(patterns_single(nfrag))
+            else:
+                full = list(range(nfrag))
+                pats = [full] + [full[:j] + full[j + 1:] for j in range(nfrag)] \
+                    + [full[:j + 1] + full[j:] for j in range(nfrag)] \
+                    + [full[:j + 1] + full[j + 2:] + full[j + 1:j + 2] for j in range(nfrag - 1)]
+            for pi, seq in enumerate(pats):
+                for deq in ([], list(range(len(seq) + 1))):
+                    for sender, typ in ((0o12, 66), (0o3, 5), (0o2222 >> 3, 127)):
+                        if (ctx.tier == "quick" and (pi + nfrag + typ) % 3) and seq != list(range(nfrag)):
+                            continue
+                        yield {"msgs": [[sender, 20 + nfrag, nfrag, typ]], "order": [[0, i] for i in seq], "deq": deq,
+                               "path": "radio" if (pi + nfrag) % 3 == 0 else "direct", "src": "lib", "exact": exact,
+                               "fam": "lib-sender"}
     # stray fragments / restarts / random
     nrand = 8000 if ctx.tier == "quick" else 400000
+    rng_b = ctx.sub_rng("c06b")
     for i in range(nrand):
         ns = rng.choice([1, 2, 2, 3])
         msgs = []
@@ -204,8 +267,14 @@ def gen_cases(ctx):
         rng.shuffle(order)
         order.sort(key=lambda x: (x[1] + rng.random() * 1.2))
         deq = sorted(rng.sample(range(len(order) + 1), min(len(order) + 1, rng.randrange(0, 4))))
-        yield {"msgs": msgs, "order": order, "deq": deq,
-               "path": "radio" if i % 4 == 0 else "direct"}
+        case = {"msgs": msgs, "order": order, "deq": deq,
+                "path": "radio" if i % 4 == 0 else "direct"}
+        rb = rng_b.random()
+        if rb < 0.12:
+            case["exact"] = True   # every message of the case is an exact multiple of 24 bytes long
+        if 0.08 < rb < 0.2:
+            case["src"] = "lib"    # fragments produced by the library's own sender
+        yield case
 
 
 class Sink:
@@ -251,13 +320,18 @@ class Sink:
 
 def run_case(ctx, case):
     m = repo()
-    msgs = [mk_message(mm[0], mm[1], mm[2], mm[3], 3 + i, *mm[4:5]) for i, mm in enumerate(case["msgs"])]
+    msgs = [mk_message(mm[0], mm[1], mm[2], mm[3], 3 + i, *mm[4:5], exact=case.get("exact", False),
+                       src=case.get("src", "ref")) for i, mm in enumerate(case["msgs"])]
+    if case.get("src") == "lib":
+        ctx.clause("library_sender_streams")
     sink = Sink(m, case["path"], case.get("relay", False))
     try:
         delivered = []
         for step, (mi, fi) in enumerate(case["order"]):
             if step in case["deq"]:
                 delivered += sink.dequeue_all()
+            if fi >= len(msgs[mi]["frames"]) or msgs[mi]["frames"][fi] is None:
+                continue  # the library's sender produced fewer frames than the message needs
             sink.deliver(msgs[mi]["frames"][fi])
         if len(case["order"]) in case["deq"]:
             delivered += sink.dequeue_all()
